@@ -278,6 +278,7 @@ func (c *wsConn) handleOutChans() {
 		}
 
 		vhook("och.val", c, caseToID[chosen-internal])
+		vhook("och.val.v", c, caseToID[chosen-internal], val)
 		// forward message
 		rp, err := json.Marshal([]param{{v: reflect.ValueOf(caseToID[chosen-internal])}, {v: val}})
 		if err != nil {
@@ -466,6 +467,7 @@ func (c *wsConn) handleChanClose(frame frame) {
 func (c *wsConn) handleResponse(frame frame) {
 	c.inflightLk.Lock()
 	req, ok := c.inflight[frame.ID]
+	vhook("resp.lookup.l", c, frame.ID, ok)
 	c.inflightLk.Unlock()
 	vhook("resp.lookup", c, frame.ID, ok)
 	if !ok {
@@ -544,6 +546,7 @@ func (c *wsConn) handleCall(ctx context.Context, frame frame) {
 				cancel()
 				delete(c.handling, frame.ID)
 			}
+			vhook("call.done", c, frame.ID, keepctx)
 		}
 	}
 
@@ -786,6 +789,7 @@ func (c *wsConn) frameExecutor(ctx context.Context) {
 				// todo send invalid request response
 				continue
 			}
+			vhook("exec.frame", c, frame.Method, frame.ID)
 
 			c.handleFrame(ctx, frame)
 		}
